@@ -187,7 +187,7 @@ func run(r *hx.Run) error {
 		r.Emit(op, res)
 	}
 	// race-detector run of the same schedule kinds in a child process
-	for _, grp := range []string{"use", "dblclose", "sigsuspend"} {
+	for _, grp := range []string{"use", "dblclose", "sigsuspend", "sigrender"} {
 		r.Case("race-" + grp)
 		r.Emit("race "+grp, h.raceRun(grp))
 	}
@@ -1317,6 +1317,55 @@ func sigBlockedCase(seed uint64, keys int) string {
 	return fmt.Sprintf("queued=%d blocked=%d pending=%d closed-before-receive=%d after-receive=%s leak=%d", b2(queued), b2(blocked), b2(pending), b2(quitBefore), res, leak)
 }
 
+// ---------- kill signal while the main goroutine draws and renders ----------
+
+// sigRenderCase: the main goroutine draws, moves the cursor and renders frame after frame (and takes
+// events when there are some); after `at` frames the kill signal is delivered, so the input goroutine
+// runs Close -> Suspend (disableModes, exitAltScreen, cursor restore: writes through the same writer and
+// cursor records) while the main goroutine is somewhere in its frame.  The main goroutine stops when it
+// sees chQuit closed.  Under the race detector this is the schedule "kill signal mid-frame".
+func sigRenderCase(seed uint64, at int) string {
+	rng := gen.New(seed)
+	base := goroutines()
+	vx, _, err := newVx(0, uint32(rng.U64())&(1<<19-1)&^(1<<14))
+	if err != nil {
+		return "error new"
+	}
+	quit := vx.VerifC03QuitChan()
+	mdone := make(chan struct{})
+	go func() {
+		defer close(mdone)
+		for i := 0; i < 4000; i++ {
+			select {
+			case <-quit:
+				return
+			case <-vx.Events():
+			default:
+			}
+			w := vx.Window()
+			w.Print(vaxis.Segment{Text: fmt.Sprintf("frame %d %s", i, strings.Repeat("x", i%60))})
+			vx.ShowCursor(i%20, i%5, vaxis.CursorStyle(i%7))
+			vx.Render()
+			if i == at {
+				vx.VerifC10SignalKill()
+			}
+		}
+	}()
+	res := "ok"
+	select {
+	case <-quit:
+	case <-time.After(bound):
+		res = "quit-hang"
+	}
+	select {
+	case <-mdone:
+	case <-time.After(bound):
+		res += ",main-hang"
+	}
+	leak := waitGoroutines(base, goneBound)
+	return fmt.Sprintf("%s leak=%d", res, leak)
+}
+
 // ---------- F33: concurrent Close ----------
 
 func dblCloseCase(seed uint64, n int) string {
@@ -1513,13 +1562,43 @@ func (h *H) raceRun(grp string) string {
 	races := strings.Count(stderr.String(), "WARNING: DATA RACE")
 	if races > 0 {
 		h.r.Note("race-report", trunc(stderr.String(), 3000))
-		return fmt.Sprintf("races=%d %s", races, firstRaceSite(stderr.String()))
+		return fmt.Sprintf("races=%d %s sites=%s", races, firstRaceSite(stderr.String()), raceSiteSet(stderr.String()))
 	}
 	if err != nil {
 		h.r.Note("race-child-error", trunc(err.Error()+" "+stderr.String(), 600))
 		return "race-child-failed"
 	}
 	return "races=0 " + strings.TrimSpace(string(out))
+}
+
+// raceSiteSet: for every access of every report (the blocks "Read at", "Write at", "Previous read at",
+// "Previous write at") the innermost function of the library on its stack; the sorted set of these.
+func raceSiteSet(s string) string {
+	set := map[string]bool{}
+	want := false
+	for _, l := range strings.Split(s, "\n") {
+		t := strings.TrimSpace(l)
+		switch {
+		case strings.HasPrefix(t, "Read at") || strings.HasPrefix(t, "Write at") || strings.HasPrefix(t, "Previous read at") || strings.HasPrefix(t, "Previous write at") ||
+			strings.HasPrefix(t, "Atomic") || strings.HasPrefix(t, "Previous atomic"):
+			want = true
+		case t == "" || strings.HasPrefix(t, "Goroutine "):
+			want = false
+		case want && strings.Contains(t, "rockorager/vaxis") && strings.HasSuffix(t, ")") && !strings.HasPrefix(t, "/"):
+			f := strings.Fields(t)[0]
+			if i := strings.Index(f, "vaxis"); i >= 0 {
+				f = f[i:]
+			}
+			set[strings.TrimSuffix(f, "()")] = true
+			want = false
+		}
+	}
+	var out []string
+	for k := range set {
+		out = append(out, k)
+	}
+	sort.Strings(out)
+	return strings.Join(out, ",")
 }
 
 func firstRaceSite(s string) string {
@@ -1560,6 +1639,11 @@ func raceChild() {
 		if grp == "dblclose" {
 			res = dblCloseCase(rng.U64(), rng.Range(2, 3))
 			if !strings.HasPrefix(res, "close-ok") {
+				bad++
+			}
+		} else if grp == "sigrender" {
+			res = sigRenderCase(rng.U64(), rng.Range(0, 12))
+			if !strings.HasPrefix(res, "ok ") {
 				bad++
 			}
 		} else if grp == "sigsuspend" {
